@@ -110,13 +110,25 @@ pub async fn exec(f: u32, a: &Args) -> Args {
                 }
                 v
             };
-            let r = v.verify_server_cert(
-                &CertificateDer::from(der),
+            // the same verifier is asked three times (a client endpoint verifies at every connect): the
+            // decision is a function of (certificate, time, set) and may not depend on earlier calls; the
+            // LAST answer is reported
+            let mut r = v.verify_server_cert(
+                &CertificateDer::from(der.clone()),
                 &[],
                 &ServerName::try_from("localhost").unwrap(),
                 &[],
                 UnixTime::since_unix_epoch(Duration::from_secs((BASE + now) as u64)),
             );
+            for _ in 0..2 {
+                r = v.verify_server_cert(
+                    &CertificateDer::from(der.clone()),
+                    &[],
+                    &ServerName::try_from("localhost").unwrap(),
+                    &[],
+                    UnixTime::since_unix_epoch(Duration::from_secs((BASE + now) as u64)),
+                );
+            }
             use wtransport::tls::rustls::{CertificateError as CE, Error as E};
             let code = match r {
                 Ok(_) => 0,
@@ -289,6 +301,31 @@ pub async fn exec(f: u32, a: &Args) -> Args {
             vec![vec![1, r]]
         }
         // generated identities: SAN lists, validity setters; abstract record via x509-parser + pinning with own hash
+        // generated identities whose validity is given as date-times with a UTC offset other than zero:
+        // a[0] = [offset of not_before in minutes + 1440, offset of not_after in minutes + 1440, days, start shift in seconds + 2^20]
+        732 => {
+            let (o1, o2, days, shift) = (a[0][0] as i32 - 1440, a[0][1] as i32 - 1440, a[0][2] as i64, a[0][3] as i64 - (1 << 20));
+            let now = ::time::OffsetDateTime::now_utc();
+            let nb = now + ::time::Duration::seconds(shift);
+            let na = nb + ::time::Duration::days(days);
+            let off = |m: i32| ::time::UtcOffset::from_whole_seconds(m * 60).unwrap();
+            let id = Identity::self_signed_builder()
+                .subject_alt_names(["localhost"])
+                .not_before(nb.to_offset(off(o1)))
+                .not_after(na.to_offset(off(o2)))
+                .build();
+            let id = match id { Ok(i) => i, Err(_) => return vec![vec![0]] };
+            let cert = &id.certificate_chain().as_slice()[0];
+            let der = cert.der().to_vec();
+            use x509_parser::prelude::*;
+            let (_, x) = X509Certificate::from_der(&der).unwrap();
+            let got_nb = x.validity().not_before.timestamp();
+            let got_na = x.validity().not_after.timestamp();
+            let v = ServerHashVerification::new([cert.hash()]);
+            let ok = v.verify_server_cert(&CertificateDer::from(der.clone()), &[], &ServerName::try_from("localhost").unwrap(), &[], UnixTime::now()).is_ok();
+            vec![vec![1, (got_nb == nb.unix_timestamp()) as u64, (got_na == na.unix_timestamp()) as u64, ok as u64],
+                 vec![(got_nb - nb.unix_timestamp()).unsigned_abs(), (got_na - na.unix_timestamp()).unsigned_abs()]]
+        }
         731 => {
             let sans: Vec<String> = a[1..].iter().map(|s| String::from_utf8(a2b(s)).unwrap()).collect();
             let mode = a[0][0]; // 0 = self_signed (default 14 days), n>0 = validity_days(n)
@@ -388,6 +425,19 @@ pub fn oracle(f: u32, a: &Args, out: &Args) -> Option<(&'static str, String)> {
         724 => {
             if out[0][1..] != [1, 1, 1, 1, 1] {
                 return Some(("C19", format!("storing {} then {} certificates into the same file (and a short key over a long one): stored={},{} chain loads back equal={} file equals to_pem={} key file equals to_secret_pem={}", a[0][0], a[0][1], out[0][1], out[0][2], out[0][3], out[0][4], out[0][5])));
+            }
+            None
+        }
+        732 => {
+            if out[0][0] != 1 {
+                return Some(("C19", "an identity with a validity given in a non-UTC offset could not be generated".into()));
+            }
+            if out[0][1] != 1 || out[0][2] != 1 {
+                return Some(("C19", format!("validity instants given with UTC offsets {} / {} min ended up {} s / {} s away in the certificate", a[0][0] as i64 - 1440, a[0][1] as i64 - 1440, out[1][0], out[1][1])));
+            }
+            let shift = a[0][3] as i64 - (1 << 20);
+            if a[0][2] <= 14 && shift <= 0 && out[0][3] != 1 {
+                return Some(("C19", "a generated identity of <= 14 days, valid now, is refused by pinning with its own hash".into()));
             }
             None
         }
@@ -524,6 +574,13 @@ pub fn generate(rng: &mut Rng, thorough: bool, which: &str) -> Vec<Case> {
             }
             for days in [1u64, 7, 13, 14, 15, 30] {
                 cs.push(Case::new(731, vec![vec![days], b2a(b"localhost")], "validity-days"));
+            }
+            // validity instants handed over as date-times in other UTC offsets (the instant is what counts)
+            for (o1, o2) in [(0i64, 0i64), (330, 330), (-480, 0), (0, 840), (-720, 765), (60, -60)] {
+                for (days, shift) in [(14u64, -60i64), (7, -3600), (1, -5), (13, -86400)] {
+                    if !thorough && (o1 + o2 + days as i64) % 2 == 1 { continue; }
+                    cs.push(Case::new(732, vec![vec![(o1 + 1440) as u64, (o2 + 1440) as u64, days, (shift + (1 << 20)) as u64]], "validity-in-utc-offsets"));
+                }
             }
         }
         _ => {}
